@@ -1318,9 +1318,9 @@ type OptionParameterUnknown struct {
 func (o *OptionParameterUnknown) Serialize() ([]byte, error) {
 	buf := make([]byte, 2+len(o.Value))
 	buf[0] = o.ParamType
-	if o.ParamLen == 0 {
-		o.ParamLen = uint8(len(o.Value))
-	}
+	// the length octet describes the value being emitted now, not the one decoded or
+	// serialised earlier
+	o.ParamLen = uint8(len(o.Value))
 	buf[1] = o.ParamLen
 	copy(buf[2:], o.Value)
 	return buf, nil
